@@ -118,7 +118,7 @@ class DOMParser:
         context = ParseContext(self, options, False)
 
         for d in itertools.chain([dom_], dom_.iterdescendants()):
-            if d.text and d.tag.lower() != "lxmltext":
+            if d.text and isinstance(d.tag, str) and d.tag.lower() != "lxmltext":
                 child = lxml.html.Element("lxmltext")
                 child.text = d.text
                 d.insert(0, child)
